@@ -92,6 +92,7 @@ def opOfJson (j : Json) : Option Op :=
   | .arr #[.str "graph_exists", .str g] => some (.graphExists g)
   | .arr #[.str "check_node_unique", .str g, .str l, .str n] => some (.checkNodeUnique g l n)
   | .arr #[.str "find_matching_nodes", .str g, .str o] => some (.findMatchingNodes g o)
+  | .arr #[.str "delete_all_graphs", _] => some .delAllGraphs
   | _ => none
 
 def errToStr : Err → String
